@@ -503,3 +503,379 @@ func checkedBy(p *Program, r *siteRule, in ssa.Instruction, pat string) (bool, s
 	}
 	return false, "argument " + v.Name() + " is not passed to " + by[1] + " on the dominator path and is not a constant or derived name"
 }
+
+// ---------------------------------------------------------------------------------------
+// Effect licences (F5): every call that has an effect on the outside world must be dominated by the
+// branch facts that license it, both inside the closure it lives in and at the places where that closure
+// is created (for goroutine bodies), and the captured cells those facts read must be initialised once,
+// by the stated expression, before the closure is created.
+//
+//   //@ effect NAME PROPS...: site=call F | call G ; in=pkg ; root=Func ; guard=true:PATH,false:PATH ; spawn-guard=... ;
+//   //@     cell=NAME:not-call:Method ; returns=false:PATH|after:call F|true:call G(argpath,argpath)
+//
+// PATH is a source-level access path (args.write, shouldWriteFiles, result.AbsPath) recovered from the SSA.
+
+// valuePath renders an SSA value as a source-level access path when it has one.
+func valuePath(v ssa.Value) string {
+	switch x := v.(type) {
+	case *ssa.Parameter:
+		return x.Name()
+	case *ssa.FreeVar:
+		return x.Name()
+	case *ssa.Alloc:
+		return x.Comment
+	case *ssa.Global:
+		return x.Pkg.Pkg.Name() + "." + x.Name()
+	case *ssa.UnOp:
+		if x.Op == token.MUL {
+			return valuePath(x.X)
+		}
+		if x.Op == token.NOT {
+			return "!" + valuePath(x.X)
+		}
+	case *ssa.FieldAddr:
+		st := x.X.Type().Underlying().(*types.Pointer).Elem().Underlying().(*types.Struct)
+		return valuePath(x.X) + "." + st.Field(x.Field).Name()
+	case *ssa.Field:
+		st := x.X.Type().Underlying().(*types.Struct)
+		return valuePath(x.X) + "." + st.Field(x.Field).Name()
+	case *ssa.Extract:
+		return fmt.Sprintf("%s#%d", valuePath(x.Tuple), x.Index)
+	case *ssa.Call:
+		if callee := x.Call.StaticCallee(); callee != nil {
+			var as []string
+			for _, a := range x.Call.Args {
+				as = append(as, valuePath(a))
+			}
+			return "call " + callee.Name() + "(" + strings.Join(as, ",") + ")"
+		}
+		if x.Call.IsInvoke() {
+			return "call " + x.Call.Method.Name() + "(" + valuePath(x.Call.Value) + ")"
+		}
+		var as []string
+		for _, a := range x.Call.Args {
+			as = append(as, valuePath(a))
+		}
+		return "call " + valuePath(x.Call.Value) + "(" + strings.Join(as, ",") + ")"
+	case *ssa.MakeInterface:
+		return valuePath(x.X)
+	case *ssa.ChangeType:
+		return valuePath(x.X)
+	case *ssa.Const:
+		if x.Value == nil {
+			return "nil"
+		}
+		return x.Value.String()
+	case *ssa.Index:
+		return valuePath(x.X) + "[" + valuePath(x.Index) + "]"
+	case *ssa.IndexAddr:
+		return valuePath(x.X) + "[" + valuePath(x.Index) + "]"
+	}
+	return "?" + v.Name()
+}
+
+// factMatches: does the dominating fact establish `want` ("true:PATH" / "false:PATH")?
+func factMatches(f domFact, want string) bool {
+	if f.cond == nil {
+		return false
+	}
+	pol := strings.HasPrefix(want, "true:")
+	path := want[strings.Index(want, ":")+1:]
+	v := f.cond
+	neg := f.neg
+	for {
+		if u, ok := v.(*ssa.UnOp); ok && u.Op == token.NOT {
+			v = u.X
+			neg = !neg
+			continue
+		}
+		break
+	}
+	got := valuePath(v)
+	if strings.HasSuffix(path, "*") {
+		if !strings.HasPrefix(got, strings.TrimSuffix(path, "*")) {
+			return false
+		}
+	} else if got != path {
+		return false
+	}
+	return pol == !neg
+}
+
+func guardsHold(in ssa.Instruction, guards []string) (bool, string) {
+	facts := domFacts(in)
+	for _, gd := range guards {
+		ok := false
+		for _, f := range facts {
+			if factMatches(f, gd) {
+				ok = true
+				break
+			}
+		}
+		if !ok {
+			return false, gd
+		}
+	}
+	return true, ""
+}
+
+func splitList(s string, sep string) []string {
+	var out []string
+	for _, x := range strings.Split(s, sep) {
+		if x = strings.TrimSpace(x); x != "" {
+			out = append(out, x)
+		}
+	}
+	return out
+}
+
+func runEffectRules(p *Program, id string) ([]*Gen, []string) {
+	var gens []*Gen
+	var errs []string
+	for _, d := range p.CS.Dirs {
+		if d.Kind != "effect" {
+			continue
+		}
+		j := strings.Index(d.Text, ":")
+		if j < 0 {
+			errs = append(errs, "contracts: effect rule needs 'name props: ...'")
+			continue
+		}
+		head := strings.Fields(d.Text[:j])
+		if !hasProp(head[1:], id) {
+			continue
+		}
+		name := head[0]
+		kv := map[string]string{}
+		for _, part := range strings.Split(d.Text[j+1:], ";") {
+			part = strings.TrimSpace(part)
+			if k := strings.Index(part, "="); k > 0 {
+				kv[strings.TrimSpace(part[:k])] = strings.TrimSpace(part[k+1:])
+			}
+		}
+		g := NewGen(p, nil, nil)
+		g.Label = "effect " + name
+		sp := (*ssa.Package)(nil)
+		for path, x := range p.Pkgs {
+			if x.Pkg.Name() == kv["in"] && strings.HasPrefix(path, modPath) {
+				sp = x
+			}
+		}
+		if sp == nil {
+			errs = append(errs, "contract-stale: effect "+name+": package "+kv["in"]+" not loaded")
+			continue
+		}
+		root := p.LookupFunc(sp.Pkg.Path(), kv["root"])
+		if root == nil {
+			errs = append(errs, "contract-stale: effect "+name+": root function "+kv["root"]+" not found")
+			continue
+		}
+		var fns []*ssa.Function
+		var collect func(f *ssa.Function)
+		collect = func(f *ssa.Function) {
+			fns = append(fns, f)
+			for _, a := range f.AnonFuncs {
+				collect(a)
+			}
+		}
+		collect(root)
+		short := sp.Pkg.Name()
+		mk := func(kind string, n int, in ssa.Instruction, text string) *Oblig {
+			pos := ""
+			if in != nil {
+				pos = strings.TrimPrefix(p.Fset.Position(in.Pos()).String(), p.Repo+"/")
+			}
+			o := &Oblig{Name: fmt.Sprintf("%s.%s#effect:%s.%s.%d", short, kv["root"], name, kind, n), Kind: "effect", Goal: "true", Pos: pos, Text: "effect " + name + ": " + text, AutoSite: true, Pre: "unsat",
+				ReplayTemplate: kv["scenario"], ReplayPkgDir: strings.TrimPrefix(strings.TrimPrefix(d.Pkg, modPath), "/")}
+			g.Obligs = append(g.Obligs, o)
+			return o
+		}
+		fail := func(o *Oblig, why string) {
+			o.Pre = "sat"
+			o.Model = why
+		}
+		// spawn sites: where each anonymous function is created
+		spawnOf := map[*ssa.Function]*ssa.MakeClosure{}
+		for _, f := range fns {
+			for _, b := range f.Blocks {
+				for _, in := range b.Instrs {
+					if mc, ok := in.(*ssa.MakeClosure); ok {
+						if cf, ok := mc.Fn.(*ssa.Function); ok {
+							spawnOf[cf] = mc
+						}
+					}
+				}
+			}
+		}
+		guards := splitList(kv["guard"], ",")
+		spawnGuards := splitList(kv["spawn-guard"], ",")
+		nsite := 0
+		siteFns := map[*ssa.Function]bool{}
+		for _, f := range fns {
+			for _, b := range f.Blocks {
+				for _, in := range b.Instrs {
+					for _, pat := range splitList(kv["site"], "|") {
+						desc, ok := siteMatches(p, pat, in)
+						if !ok {
+							continue
+						}
+						nsite++
+						siteFns[f] = true
+						o := mk("guard", nsite, in, desc+" requires "+kv["guard"]+" in its function and "+kv["spawn-guard"]+" where the function is created")
+						if ok, miss := guardsHold(in, guards); !ok {
+							fail(o, "not dominated by "+miss)
+							continue
+						}
+						// climb to the creation sites
+						cur := f
+						var need []string
+						need = append(need, spawnGuards...)
+						for cur != root && len(need) > 0 {
+							mc := spawnOf[cur]
+							if mc == nil {
+								fail(o, "creation site of "+cur.Name()+" not found")
+								break
+							}
+							facts := domFacts(mc)
+							var rest []string
+							for _, gd := range need {
+								found := false
+								for _, fct := range facts {
+									if factMatches(fct, gd) {
+										found = true
+									}
+								}
+								if !found {
+									rest = append(rest, gd)
+								}
+							}
+							need = rest
+							cur = mc.Parent()
+						}
+						if cur == root && len(need) > 0 && f != root {
+							fail(o, "creation sites are not dominated by "+strings.Join(need, ", "))
+						} else if f == root && len(spawnGuards) > 0 {
+							if ok, miss := guardsHold(in, spawnGuards); !ok {
+								fail(o, "not dominated by "+miss)
+							}
+						}
+					}
+				}
+			}
+		}
+		if nsite == 0 {
+			errs = append(errs, "contract-stale: effect rule "+name+" matches no site")
+		}
+		// captured cell initialised once by the stated expression, before the closures are created
+		if cell := kv["cell"]; cell != "" {
+			parts := strings.SplitN(cell, ":", 2)
+			var alloc *ssa.Alloc
+			for _, f := range fns {
+				for _, b := range f.Blocks {
+					for _, in := range b.Instrs {
+						if a, ok := in.(*ssa.Alloc); ok && a.Comment == parts[0] {
+							alloc = a
+						}
+					}
+				}
+			}
+			o := mk("cell", 1, alloc, "cell "+parts[0]+" has a single store of "+parts[1]+" that dominates every closure capturing it")
+			if alloc == nil {
+				fail(o, "cell not found (the variable is no longer captured by reference)")
+			} else {
+				var stores []*ssa.Store
+				var closures []*ssa.MakeClosure
+				for _, r := range *alloc.Referrers() {
+					switch r := r.(type) {
+					case *ssa.Store:
+						if r.Addr == ssa.Value(alloc) {
+							stores = append(stores, r)
+						}
+					case *ssa.MakeClosure:
+						closures = append(closures, r)
+					}
+				}
+				if len(stores) != 1 {
+					fail(o, fmt.Sprintf("%d stores to the cell", len(stores)))
+				} else if got := valuePath(stores[0].Val); !strings.HasPrefix(got, parts[1]) {
+					fail(o, "the cell is initialised with "+got)
+				} else {
+					for _, mc := range closures {
+						if !(stores[0].Block() == mc.Block() && instrBefore(stores[0], mc)) && !(stores[0].Block() != mc.Block() && stores[0].Block().Dominates(mc.Block())) {
+							fail(o, "the store does not dominate a closure creation")
+						}
+					}
+					// stores inside closures (through the free variable)
+					for _, f := range fns {
+						for _, b := range f.Blocks {
+							for _, in := range b.Instrs {
+								if st, ok := in.(*ssa.Store); ok {
+									if fv, ok := st.Addr.(*ssa.FreeVar); ok && fv.Name() == parts[0] {
+										fail(o, "a closure writes the cell")
+									}
+								}
+							}
+						}
+					}
+				}
+			}
+		}
+		// every return of a function containing a site is licensed
+		if rs := kv["returns"]; rs != "" {
+			alts := splitList(rs, "|")
+			n := 0
+			for f := range siteFns {
+				for _, b := range f.Blocks {
+					if b == f.Recover {
+						continue // reached only through a recovered panic
+					}
+					for _, in := range b.Instrs {
+						ret, ok := in.(*ssa.Return)
+						if !ok {
+							continue
+						}
+						n++
+						o := mk("return", n, ret, "a return of the effect's function is reached only as licensed: "+rs)
+						facts := domFacts(ret)
+						okAny := false
+						for _, alt := range alts {
+							if strings.HasPrefix(alt, "after:") {
+								pat := strings.TrimPrefix(alt, "after:")
+								for _, fct := range facts {
+									if fct.call != nil {
+										if _, m := siteMatches(p, pat, fct.call); m {
+											okAny = true
+										}
+									}
+								}
+							} else {
+								for _, fct := range facts {
+									if factMatches(fct, alt) {
+										okAny = true
+									}
+								}
+							}
+						}
+						if !okAny {
+							fail(o, "return at "+o.Pos+" is not covered by any of: "+rs)
+						}
+					}
+				}
+			}
+		}
+		gens = append(gens, g)
+	}
+	return gens, errs
+}
+
+func instrBefore(a, b ssa.Instruction) bool {
+	for _, in := range a.Block().Instrs {
+		if in == a {
+			return true
+		}
+		if in == b {
+			return false
+		}
+	}
+	return false
+}
